@@ -116,6 +116,20 @@ func multiMembers() []multiMember {
 			{Name: "b.json", ID: "https://example.com/b", Root: objSpec(&fam.Prop{Label: "o2", Spec: nest("nB", "nA", &fam.Spec{Kind: "integer", Kw: []string{"minimum"}})})}},
 		orders: [][]string{{"a.json", "b.json"}, {"b.json", "a.json"}},
 		outOf:  map[string]string{"a.json": "out.go", "b.json": "out.go"}, pkgOf: map[string]string{"out.go": "example.com/pkg/model"}})
+	// the same reference TEXT as an allOf branch in two files, pointing at each file's own (different) definition
+	{
+		baseA := objSpec(&fam.Prop{Label: "street", Spec: &fam.Spec{Kind: "string", Kw: []string{"minLength"}}, Required: true})
+		baseA.Ref, baseA.DefLabel = "$defs", "brA"
+		baseB := objSpec(&fam.Prop{Label: "email", Spec: &fam.Spec{Kind: "string"}}, &fam.Prop{Label: "phone", Spec: &fam.Spec{Kind: "integer", Kw: []string{"minimum"}}, Required: true})
+		baseB.Ref, baseB.DefLabel, baseB.DefSameAs = "$defs", "brB", "brA"
+		compA := &fam.Spec{Kind: "object", AllOf: []*fam.Spec{baseA, objSpec(&fam.Prop{Label: "extraA", Spec: &fam.Spec{Kind: "boolean"}})}}
+		compB := &fam.Spec{Kind: "object", AllOf: []*fam.Spec{baseB, objSpec(&fam.Prop{Label: "extraB", Spec: &fam.Spec{Kind: "number"}})}}
+		out = append(out, multiMember{name: "the same reference text as an allOf branch in two files", cfg: base,
+			files: []*fam.FileSpec{{Name: "a.json", ID: "https://example.com/a", Root: objSpec(&fam.Prop{Label: "ca", Spec: compA, Required: true})},
+				{Name: "b.json", ID: "https://example.com/b", Root: objSpec(&fam.Prop{Label: "cb", Spec: compB, Required: true})}},
+			orders: [][]string{{"a.json", "b.json"}, {"b.json", "a.json"}},
+			outOf:  map[string]string{"a.json": "out.go", "b.json": "out.go"}, pkgOf: map[string]string{"out.go": "example.com/pkg/model"}})
+	}
 	// a cycle across two files
 	t := objSpec(&fam.Prop{Label: "v", Spec: &fam.Spec{Kind: "string"}, Required: true})
 	t.Ref, t.RefFile = "$defs", "b.json"
